@@ -1,6 +1,54 @@
-//! C05: harness commands for property C05 (stub).
+//! C05: histories of the public buffer API with the budget/progress fields observed through the hook
+//! after every step, for the correspondence with coq/Model/Api.v.
+//!   rbv c05 api --seed S --n N
+//! Lines: `hist <id>` / `push <k> => <10 fields>` / `shape => <10 fields>` / `clear => <10 fields>`
+use crate::shp::*;
+use crate::util::*;
+use rustybuzz::verif::buffer::{glyph_state, unicode_state};
+use rustybuzz::UnicodeBuffer;
 
-pub fn run(_args: &[String]) {
-    eprintln!("c05: not implemented");
-    std::process::exit(2);
+fn fmt(s: [u64; 10]) -> String {
+    s.iter().map(|x| x.to_string()).collect::<Vec<_>>().join(" ")
+}
+
+pub fn run(args: &[String]) {
+    quiet_panics();
+    let seed = arg_u64(args, "--seed", 1);
+    let n = arg_u64(args, "--n", 100);
+    let mut r = Rng::new(seed);
+    // a small Latin font of the corpus: only lengths and budgets are observed
+    let fonts = corpus_fonts(&repo_root());
+    let path = fonts.iter().find(|p| p.ends_with("TestGSUBThree.ttf")).cloned().unwrap_or_else(|| fonts[0].clone());
+    let data = std::fs::read(&path).expect("font");
+    let face = rustybuzz::Face::from_slice(&data, 0).expect("face");
+    for h in 0..n {
+        println!("hist {}", h);
+        let mut ub = UnicodeBuffer::new();
+        let steps = r.range(2, 7);
+        for _ in 0..steps {
+            // push
+            let k = match r.below(12) {
+                0 | 1 => 0,
+                2 if h % 8 == 0 => 16385 + r.below(700) as usize,
+                3 if h % 8 == 4 => 16384,
+                _ => r.below(40) as usize,
+            };
+            for i in 0..k {
+                ub.add('A', i as u32);
+            }
+            println!("push {} => {}", k, fmt(unicode_state(&ub)));
+            if r.chance(1, 5) {
+                // a second push before shaping
+                let k2 = r.below(20) as usize;
+                for i in 0..k2 {
+                    ub.add('B', i as u32);
+                }
+                println!("push {} => {}", k2, fmt(unicode_state(&ub)));
+            }
+            let gb = rustybuzz::shape(&face, &[], ub);
+            println!("shape => {}", fmt(glyph_state(&gb)));
+            ub = gb.clear();
+            println!("clear => {}", fmt(unicode_state(&ub)));
+        }
+    }
 }
